@@ -17,8 +17,12 @@ RULE = ("workloads of 2-3 real KmipSession threads (different identities, KMIP v
         "requests each: creators, lifecycle changes, Locate/Get/GetAttributes, version-gated "
         "operations and attributes, ID-placeholder batches, undecodable frames) sharing one engine; "
         "a deterministic scheduler lets exactly one thread run and switches only at yield points "
-        "(every function call in server/engine.py, policy.py, session.py, every SQL statement, every "
-        "lock operation) according to a Hypothesis-generated choice sequence; engine._lock is replaced "
+        "(every function call in server/engine.py, policy.py, session.py, auth/slugs.py, auth/utils.py "
+        "and core/messages/messages.py - i.e. also while a request is decoded, the identity is "
+        "established and the response is encoded outside the engine lock -, every SQL statement, "
+        "every lock operation, every recv, every HTTP round trip of the authentication plug-in (a "
+        "quarter of the workloads run with a SLUGS block enabled and one settings list shared by "
+        "all sessions, as KmipServer does) according to a Hypothesis-generated choice sequence; engine._lock is replaced "
         "by a scheduler-aware re-entrant lock of identical semantics. Oracle: the responses per "
         "(client, request) and the final raw tables must equal those of SOME sequential order "
         "consistent with each client's own order (search over orders on database copies, pruned by "
@@ -32,7 +36,52 @@ ASSUMPTIONS = ["only interleavings at the instrumented yield points are explored
                "the harness clock is frozen during a workload, generated key material is masked"]
 
 NOW = 1_700_003_000
-TRACE_FILES = ("services/server/engine.py", "services/server/policy.py", "services/server/session.py")
+TRACE_FILES = ("services/server/engine.py", "services/server/policy.py", "services/server/session.py",
+               "services/server/auth/slugs.py", "services/server/auth/utils.py",
+               "core/messages/messages.py")
+SLUGS_SETTINGS = [("auth:slugs", {"enabled": "True", "url": "http://slugs.test:8080/slugs/"})]
+
+
+class _Resp(object):
+    def __init__(self, status, body=None):
+        self.status_code = status
+        self._body = body
+
+    def json(self):
+        return self._body
+
+
+class SlugsStub(object):
+    """Stands in for `requests` inside auth/slugs.py: every user is known and belongs to the group
+    'grp-<user>'; an HTTP round trip is a point where another session may run."""
+
+    def __init__(self, real):
+        self._real = real
+        self.sched = None
+
+    def get(self, url, **kw):
+        if self.sched is not None:
+            self.sched.yield_point("http")
+        parts = url.rstrip("/").split("/")
+        if parts[-1] == "groups" and len(parts) >= 3 and parts[-3] == "users":
+            return _Resp(200, {"groups": ["grp-" + parts[-2]]})
+        if len(parts) >= 2 and parts[-2] == "users":
+            return _Resp(200, {"name": parts[-1]})
+        return _Resp(404)
+
+    def __getattr__(self, name):
+        return getattr(self._real, name)
+
+
+_slugs = {}
+
+
+def slugs_stub():
+    from kmip.services.server.auth import slugs as slugs_mod
+    if "stub" not in _slugs:
+        _slugs["stub"] = SlugsStub(slugs_mod.requests)
+        slugs_mod.requests = _slugs["stub"]
+    return _slugs["stub"]
 USERS = ["alice", "bob", "carol"]
 
 
@@ -95,11 +144,17 @@ def gen_workload(draw):
                    "lock-acquire": draw(st.sampled_from([0, 30, 100])),
                    "sql": draw(st.sampled_from([0, 5, 30])),
                    "call": draw(st.sampled_from([0, 2, 10, 30])),
+                   "http": draw(st.sampled_from([0, 50, 100])),
                    "between-requests": draw(st.sampled_from([0, 50, 100]))}
             ln = draw(st.sampled_from([40, 150, 400]))
             schedules.append({"policy": pol,
                               "choices": draw(st.lists(st.integers(0, 299), min_size=ln, max_size=ln))})
-    return {"clients": clients, "schedules": schedules}
+    w = {"clients": clients, "schedules": schedules}
+    if draw(st.integers(0, 3)) == 0:
+        # identities vouched for by an authentication plug-in (one HTTP round trip per request,
+        # made before the engine is entered): identity = (user, ['grp-<user>'])
+        w["slugs"] = True
+    return w
 
 
 def frame_bytes(fr):
@@ -137,10 +192,13 @@ def masked_snapshot(server, template_uids):
 
 
 # ---------------------------------------------------------------- runs
-def sequential_step(server, who, fr):
+def sequential_step(server, who, fr, slugs=False):
     """One frame on its own connection, as a session would serve it; returns response or EXC tag."""
     H.CLOCK.now = NOW
-    conn, errs = server.session(frame_bytes(fr), cn=who)
+    if slugs:
+        slugs_stub().sched = None
+    conn, errs = server.session(frame_bytes(fr), cn=who,
+                                auth_settings=list(SLUGS_SETTINGS) if slugs else None)
     if errs:
         return "EXC:" + type(errs[0]).__name__
     return conn.sent[0] if conn.sent else None
@@ -162,12 +220,18 @@ def concurrent_run(spec, choices):
     conns = []
     fns = []
     results = []
+    # as in KmipServer: ONE settings list handed to every session
+    shared_settings = None
+    if spec.get("slugs"):
+        slugs_stub().sched = s
+        shared_settings = [(n_, dict(c_)) for n_, c_ in SLUGS_SETTINGS]
     for ci, c in enumerate(spec["clients"]):
         data = b"".join(frame_bytes(fr) for fr in c["frames"])
         # the transport delivers each message in pieces and every recv() is a switch point
         # (the harness owns the transport, so it owns this part of the schedule too)
         conn = SchedConnection(s, data, spec.get("chunks") or [5, 3, 64, 17, 200], H.make_cert((c["who"],), "client"))
-        sess = session_mod.KmipSession(eng, conn, ("127.0.0.1", 5696), name="c10-%d" % ci)
+        sess = session_mod.KmipSession(eng, conn, ("127.0.0.1", 5696), name="c10-%d" % ci,
+                                       auth_settings=shared_settings)
         conns.append(conn)
         res = []
         results.append(res)
@@ -188,6 +252,8 @@ def concurrent_run(spec, choices):
                 s.yield_point("between-requests")
         fns.append(fn)
     ok = s.run(fns, timeout=25.0)
+    if spec.get("slugs"):
+        slugs_stub().sched = None
     return srv, s, results, ok
 
 
@@ -221,7 +287,7 @@ class SeqSearch(object):
         k = sum(1 for x in prefix if x == ci)
         c = self.spec["clients"][ci]
         fr = c["frames"][k]
-        resp = sequential_step(child, c["who"], fr)
+        resp = sequential_step(child, c["who"], fr, bool(self.spec.get("slugs")))
         self.nodes += 1
         self.cache[key] = (child, norm_response(resp, fr, self.tu))
         return self.cache[key]
@@ -332,8 +398,11 @@ def worker(n, seed):
             seen = {}
             for k, d in b:
                 seen.setdefault(k, d)
-            col.record({"clients": spec["clients"], "schedules": [choices]}, nontrivial=nt, classes=cl,
-                       buckets=list(seen.items()))
+            one_spec = {"clients": spec["clients"], "schedules": [choices]}
+            if spec.get("slugs"):
+                one_spec["slugs"] = True
+                cl = cl + ["identity-from-plugin"]
+            col.record(one_spec, nontrivial=nt, classes=cl, buckets=list(seen.items()))
 
     core.draw_examples(gen_workload(), n, seed, one)
     return col
@@ -342,7 +411,7 @@ def worker(n, seed):
 def run(ctx):
     store.standard_template()
     n = core.NCPU
-    total = ctx.n(160, 2400)
+    total = ctx.n(240, 3200)
     dicts = core.run_sharded("vlib.props.c10", "worker",
                              [(max(1, total // n), core.derive_seed(ctx.seed, "c10", i)) for i in range(n)])
     return core.merged(PID, dicts)
